@@ -178,6 +178,8 @@ def check_one(ctx, rng, work, idx):
                          'mixed']))
     round_to_int = bool(rng.random() < 0.7)
     layout = None if rng.random() < 0.4 else int(rng.choice([1, 2, 5, 16]))
+    if rng.random() < 0.12:
+        layout = 'oversize'
     use_output_dir = bool(rng.random() < 0.4)
     X = make_matrix(rng, n, m, xk, dtype)
     genes, expect = make_genes(rng, m, gk)
